@@ -49,11 +49,13 @@ def canon_doc(doc):
             'associations': sorted((dict(a, left=sorted(map(int, a['left'])), right=sorted(map(int, a['right']))) for a in doc['associations']), key=jtxt),
             'attackers': sorted(([str(k), {'name': v['name'], 'entry': sorted([str(a), sorted(s)] for a, s in v['entry'])}] for k, v in doc['attackers']), key=lambda e: e[0])}
 
-def check_case(spec, ops, fmt, mo, rnd, res):
+def check_case(spec, ops, fmt, mo, rnd, res, tap=None):
+    """`tap` (third column): a dictionary that receives the real objects of the case (`im`, `m`, `m2`, `raw`, `edited`, `m3`)"""
     from maltoolbox.model import Model
     im = Impl(spec)
     for op in ops: im.step(op)
     m = im.m
+    if tap is not None: tap.update(im=im, m=m)
     d = scratch()
     path = os.path.join(d, f'model.{fmt}')
     before = full_obs(m)
@@ -67,6 +69,7 @@ def check_case(spec, ops, fmt, mo, rnd, res):
     except Exception as e:
         return Violation(what=f'loading the saved {fmt} file raises {type(e).__name__}: {str(e)[:60]}', fingerprint=f'C07:load-raises:{type(e).__name__}',
                          replay={'spec': spec, 'ops': ops, 'fmt': fmt})
+    if tap is not None: tap['m2'] = m2
     after = full_obs(m2)
     if after != before:
         diff = [k for k in before if before[k] != after[k]]
@@ -88,10 +91,12 @@ def check_case(spec, ops, fmt, mo, rnd, res):
         if set(v) == {'name', 'type'} and v['name'] == f"{v['type']}:{k}":
             edited['assets'][k] = v['type']; n_short += 1
         else: edited['assets'][k] = v
+    if tap is not None: tap.update(raw=copy.deepcopy(raw), edited=copy.deepcopy(edited))
     path2 = os.path.join(d, f'edited.{fmt}')
     save_dict_to_file(path2, edited)
     try:
         m3 = Model.load_from_file(path2, im.fac)
+        if tap is not None: tap['m3'] = m3
         third = full_obs(m3)
     except Exception as e:
         third = {'error': type(e).__name__ + ': ' + str(e)[:80]}
@@ -114,6 +119,181 @@ def check_case(spec, ops, fmt, mo, rnd, res):
                                  replay={'spec': spec, 'ops': ops, 'fmt': fmt, 'impl': a[k], 'model': b[k]}, no_failing_input=True)
     return None
 
+# ---- third column (genexec2): the generated `Model._to_dict` / `Model._from_dict` (driver ops `gen_ser_model`, `gen_load_doc`) ----
+LOAD_KEYS = ('assets', 'associations', 'attackers', 'assetIds', 'assetNames', 'nextId')
+# error classes that the prelude states differently from CPython ON PURPOSE (PreludeMSerial `pjsNewAsset` / `pjsNewAssoc`:
+# "`AttributeError` (abstracted as the hand model's lookup error)"): (real, generated)
+CLASS_CONVENTION = {('AttributeError', 'LookupError')}
+
+def declared_defenses(spec, type_):
+    by = {a['name']: a for a in spec['assets']}
+    out = []
+    while type_ in by:
+        out += [s['name'] for s in by[type_]['attackSteps'] if s['type'] == 'defense']; type_ = by[type_]['superAsset']
+    return out
+
+def odd_edits(raw, rnd, spec, k=3):
+    """hand edits of a saved document beyond the permutation / shorthand of the oracle: missing keys, reordered keys, odd
+    values - [(label, document)]; every edit is applied to its own copy of the document the real file layer returned"""
+    out = []
+    def ed(label, f):
+        d = copy.deepcopy(raw)
+        try:
+            if f(d) is not False: out.append((label, d))
+        except (KeyError, IndexError, StopIteration): pass
+    full = [k_ for k_, v in raw['assets'].items() if isinstance(v, dict)]
+    assocs = list(range(len(raw.get('associations', []))))
+    atts = list(raw.get('attackers', {}))
+    def cls_of(e): return [k_ for k_ in e if k_ != 'extras'][0]
+    def reorder_extras_first(d):
+        e = d['associations'][rnd.choice(assocs)]; c = cls_of(e); v = e.pop(c); x = e.pop('extras', {'edited': 1}); e['extras'] = x; e[c] = v
+    def swap_fields(d):
+        e = d['associations'][rnd.choice(assocs)]; c = cls_of(e); e[c] = dict(reversed(list(e[c].items())))
+    def single_id(d):
+        for e in d['associations']:
+            for f_, t in e[cls_of(e)].items():
+                if isinstance(t, list) and len(t) == 1: e[cls_of(e)][f_] = t[0]; return
+        return False
+    def rename_key(dic, old, new): items = [(new if k_ == old else k_, v) for k_, v in dic.items()]; dic.clear(); dic.update(items)
+    def dangling(d):
+        a = d['attackers'][rnd.choice(atts)]; a['entry_points'][987654 if not isinstance(next(iter(d['assets']), 0), str) else '987654'] = {'attack_steps': ['x']}
+    def drop_referenced(d):
+        e = d['associations'][rnd.choice(assocs)]; t = next(iter(e[cls_of(e)].values())); i = t[0] if isinstance(t, list) else t
+        key = next(k_ for k_ in d['assets'] if str(k_) == str(i)); del d['assets'][key]
+    def dup_name(d):
+        if len(full) < 2: return False
+        a, b = rnd.sample(full, 2); d['assets'][b]['name'] = d['assets'][a]['name']
+    def out_of_range(d):
+        for a in rnd.sample(full, len(full)):
+            ds = declared_defenses(spec, d['assets'][a].get('type'))
+            if ds: d['assets'][a].setdefault('defenses', {})[rnd.choice(ds)] = rnd.choice([1.5, -0.25, 2]); return
+        return False
+    def spelled(k_):
+        """another spelling of an integer key that CPython's `int` reads (white space around it, a leading `+`, a Unicode
+        digit in front): `String.toInt?` of the preludes does not - the generated `_from_dict` must answer "not modelled"
+        (`OtherError`), never `ValueError` (finding of the legacy helper, repaired in `Py/PyInt.lean`)"""
+        k_ = str(k_)
+        forms = [' ' + k_, k_ + '\t', k_ + '\n', '\xa0' + k_ + ' ', '\u0665' + k_.lstrip('-')] + (['+' + k_] if not k_.startswith('-') else [' ' + k_])
+        return rnd.choice(forms)
+    def spell_member(d):
+        e = d['associations'][rnd.choice(assocs)]; f_ = rnd.choice(list(e[cls_of(e)])); t = e[cls_of(e)][f_]
+        if isinstance(t, list) and t: t[rnd.randrange(len(t))] = spelled(t[0])
+        elif not isinstance(t, list): e[cls_of(e)][f_] = spelled(t)
+        else: return False
+    def spell_ep(d):
+        a = d['attackers'][next(a for a in atts if d['attackers'][a]['entry_points'])]['entry_points']; k_ = rnd.choice(list(a)); rename_key(a, k_, spelled(k_))
+    def retype_keys(d):
+        for top in ('assets', 'attackers'):
+            items = [((int(k_) if isinstance(k_, str) else str(k_)), v) for k_, v in d[top].items()]; d[top] = dict(items)
+    menu = [('drop:attackers', lambda d: d.pop('attackers')), ('drop:associations', lambda d: d.pop('associations')),
+            ('drop:assets', lambda d: d.pop('assets')), ('drop:metadata', lambda d: d.pop('metadata')),
+            ('drop:metadata.name', lambda d: d['metadata'].pop('name')),
+            ('meta:space-version', lambda d: d['metadata'].update({'MAL Toolbox Version': '9.9.9'})),
+            ('assets:reversed', lambda d: d.update(assets=dict(reversed(list(d['assets'].items()))))),
+            ('attackers:reversed', lambda d: d.update(attackers=dict(reversed(list(d['attackers'].items())))) if atts else False),
+            ('keys:retyped', retype_keys)]
+    if raw['assets']: menu += [('key-spelling:asset', lambda d: (lambda k_: rename_key(d['assets'], k_, spelled(k_)))(rnd.choice(list(d['assets']))))]
+    if assocs: menu += [('key-spelling:member', spell_member)]
+    if atts: menu += [('key-spelling:attacker', lambda d: (lambda k_: rename_key(d['attackers'], k_, spelled(k_)))(rnd.choice(atts))), ('key-spelling:entry-point', spell_ep)]
+    if full:
+        menu += [('drop:asset.name', lambda d: d['assets'][rnd.choice(full)].pop('name')), ('drop:asset.type', lambda d: d['assets'][rnd.choice(full)].pop('type')),
+                 ('unknown-type', lambda d: d['assets'][rnd.choice(full)].update(type='NoSuchAsset')),
+                 ('unknown-defense', lambda d: d['assets'][rnd.choice(full)].setdefault('defenses', {}).update(noSuchDefense=0.5)),
+                 ('defense-out-of-range', out_of_range),
+                 ('int-defense', lambda d: [v['defenses'].update({next(iter(v['defenses'])): 1}) for v in [d['assets'][k_] for k_ in full if d['assets'][k_].get('defenses')][:1]] or False),
+                 ('asset:empty-extras', lambda d: d['assets'][rnd.choice(full)].update(extras={})),
+                 ('asset:extras', lambda d: d['assets'][rnd.choice(full)].update(extras={'b': [1, 2.5, None], 'a': {'z': True}})),
+                 ('bad-id-key', lambda d: rename_key(d['assets'], rnd.choice(full), 'abc')), ('dup-asset-name', dup_name)]
+    if assocs:
+        menu += [('assoc:extras-first', reorder_extras_first), ('assoc:swap-fields', swap_fields), ('assoc:single-id', single_id),
+                 ('unknown-class', lambda d: (lambda e: rename_key(e, cls_of(e), 'NoSuchAssoc'))(d['associations'][rnd.choice(assocs)])),
+                 ('unknown-field', lambda d: (lambda e: rename_key(e[cls_of(e)], next(iter(e[cls_of(e)])), 'noSuchField'))(d['associations'][rnd.choice(assocs)])),
+                 ('drop-referenced-asset', drop_referenced)]
+    if atts:
+        menu += [('drop:attacker.name', lambda d: d['attackers'][rnd.choice(atts)].pop('name')),
+                 ('drop:attacker.entry_points', lambda d: d['attackers'][rnd.choice(atts)].pop('entry_points')),
+                 ('drop:ep.attack_steps', lambda d: next(iter(d['attackers'][next(a for a in atts if d['attackers'][a]['entry_points'])]['entry_points'].values())).pop('attack_steps')),
+                 ('dangling-entry-point', dangling), ('bad-attacker-key', lambda d: rename_key(d['attackers'], rnd.choice(atts), 'x1'))]
+    for label, f in rnd.sample(menu, min(k, len(menu))): ed(label, f)
+    return out
+
+def real_load(doc, fac):
+    """the real `Model._from_dict` on a document -> (error class | None, observation | None, re-saved document | None, name)"""
+    from maltoolbox.model import Model
+    try:
+        m = Model._from_dict(copy.deepcopy(doc), fac)
+    except Exception as e:
+        return type(e).__name__, None, None, None
+    try:
+        im = Impl.__new__(Impl); im.m = m
+        return None, canon_obs(Impl.obs(im)), m._to_dict(), m.name
+    except Exception as e:                      # a model `_from_dict` returned but that cannot be observed / saved (finding 2 of NOTES_mserial)
+        return None, {'unobservable': type(e).__name__}, None, m.name
+
+def gen_load_same(real, g, res=None):
+    """real = (err, obs, resaved, name) of `real_load`, g = answer of `gen_load_doc` -> None | description"""
+    from .. import genexec
+    rerr, robs, rsaved, rname = real
+    if g['err'] == 'OtherError':
+        # the prelude's "not modelled" (a value the typed heap cannot hold, a pjs validation error): nothing to compare
+        if res is not None: res.bump('generated_code_loads_not_modelled(OtherError): real ' + (rerr or ('loads' if 'unobservable' not in robs else 'loads, unobservable')))
+        return None
+    if rerr is not None or g['err'] is not None:
+        if rerr == g['err']: return None
+        if (rerr, g['err']) in CLASS_CONVENTION:
+            if res is not None: res.bump(f'generated_code_loads_error_class_by_convention({rerr}~{g["err"]})')
+            return None
+        return f'the real _from_dict {("raises " + rerr) if rerr else "returns"}, the generated one {("raises " + g["err"]) if g["err"] else "returns"}'
+    if 'unobservable' in robs: return 'the real _from_dict returns a model that cannot be observed, the generated one a proper heap'
+    if rname != g['name']: return f'name of the loaded model: {rname!r} vs {g["name"]!r}'
+    b = canon_obs(g['loaded'])
+    for k in LOAD_KEYS:
+        if robs[k] != b[k]: return f'the loaded model differs in {k}: {robs[k]!r:.200} (impl) vs {b[k]!r:.200} (generated)'
+    d = genexec.m_doc_compare(rsaved, g['resaved'])
+    return ('saving the loaded model again: ' + d) if d else None
+
+def third_column(i, spec, ops, fmt, tap, gen_i, r, res, queue, count=True):
+    """after the oracle and the hand model passed on case i: the document of the generated `_to_dict` against the real one;
+    queues the documents of the real file layer (+ the hand-edited ones) for the generated `_from_dict`.  -> [description]"""
+    from .. import genexec
+    if 'skip' in gen_i:
+        if count: res.bump('generated_code_case_skipped:' + gen_i['skip']); return []
+        return []
+    bad = []
+    d = genexec.m_doc_compare(tap['m']._to_dict(), gen_i['doc'])
+    if count: res.bump('generated_code_documents_compared')
+    if d: bad.append(('_to_dict', 'document of _to_dict: ' + d, {'impl_doc': genexec.m_doc_encode(tap['m']._to_dict()), 'generated_doc': gen_i['doc']}))
+    fac = tap['im'].fac
+    docs = []
+    if 'raw' in tap: docs.append(('file:' + fmt, tap['raw']))
+    if 'edited' in tap: docs.append(('oracle-edit:permuted+shorthand', tap['edited']))
+    if 'raw' in tap: docs += odd_edits(tap['raw'], r, spec)
+    for label, doc in docs:
+        queue.append({'case': i, 'label': label, 'doc': doc, 'real': real_load(doc, fac)})
+    return bad
+
+def meta_of(spec):
+    import maltoolbox
+    return [spec['defines']['version'], spec['defines']['id'], maltoolbox.__version__]
+
+def check_loads(queue, cases, res, count=True):
+    """the generated `_from_dict` on the queued documents -> [(queue entry, kind, description)]"""
+    from .. import genexec
+    out = run_driver([{'op': 'gen_load_doc', 'case': k, 'lang': lang_payload(cases[q['case']][0]), 'doc': genexec.m_doc_encode(q['doc']),
+                       'meta': meta_of(cases[q['case']][0])} for k, q in enumerate(queue)])
+    bad = []
+    for q, o in zip(queue, out):
+        lab = q['label'].split(':')[0] if q['label'].startswith('file') else q['label']
+        if 'error' in o:
+            if o['error'].startswith('unrepresentable'):
+                if count: res.bump('generated_code_loads_unrepresentable:' + lab)
+                continue
+            bad.append((q, 'driver-error', o['error'])); continue
+        if count: res.bump('generated_code_loads_compared'); res.bump('generated_code_load:' + lab + ' -> ' + (q['real'][0] or 'loads'))
+        d = gen_load_same(q['real'], o['model'], res if count else None)
+        if d: bad.append((q, '_from_dict', d))
+    return bad
+
 def run(seed, tier, lean) -> Result:
     rnd = random.Random(seed)
     res = Result(rule='models built by random API histories (id gaps, explicit/zero/negative ids, non-default defenses, YAML-significant and '
@@ -130,18 +310,28 @@ def run(seed, tier, lean) -> Result:
         g = Gen(r, spec, WEIGHTS, names=NAMES)      # YAML/JSON-significant names are drawn inside the generator, so
         ops = g.gen(r.randint(4, 30))[:-1]          # that its bookkeeping of accepted / rejected additions sees them
         cases.append((spec, ops, ['json', 'yml', 'yaml'][i % 3], r))
-    model = None
+    from .. import genexec
+    model = gen = None
     if lean['build_ok']:
-        model = run_driver([{'op': 'ser_model', 'case': i, 'lang': lang_payload(s), 'ops': o, 'fmt': 'json' if f == 'json' else 'yaml'}
-                            for i, (s, o, f, r) in enumerate(cases)])
+        model, gen = genexec.run_both([{'op': 'ser_model', 'case': i, 'lang': lang_payload(s), 'ops': o, 'fmt': 'json' if f == 'json' else 'yaml'}
+                                       for i, (s, o, f, r) in enumerate(cases)], 'gen_ser_model',
+                                      rewrite=lambda q: dict(q, meta=meta_of(cases[q['case']][0])))
+    queue = []
     for i, (spec, ops, fmt, r) in enumerate(cases):
         res.evaluations += 1
         mo = model[i].get('model') if model is not None else None
         if model is not None and mo is None:
             res.violations.append(Violation(what='driver rejected a case: ' + str(model[i].get('error')), fingerprint='C07:driver-error',
                                             replay={'spec': spec, 'ops': ops}, no_failing_input=True)); continue
-        v = check_case(spec, ops, fmt, mo, r, res)
+        tap = {} if gen is not None and gen[i] is not None else None
+        v = check_case(spec, ops, fmt, mo, r, res, tap)
         res.bump(fmt)
+        if tap is not None and not v:
+            # third column: the oracle passes and the hand model agrees with the implementation on this case
+            if 'error' in gen[i]: res.violations.append(genexec.driver_error('C07', gen[i]['error'], {'spec': spec, 'ops': ops}))
+            else:
+                for op_, what, info in third_column(i, spec, ops, fmt, tap, gen[i]['model'], random.Random(seed * 1000003 + i), res, queue)[:1]:
+                    res.violations.append(genexec.divergence('C07', op_, f'({what})', {'spec': spec, 'ops': ops, 'fmt': fmt, **info}))
         ks = [o['k'] for o in ops]
         if any(o['k'] == 'add_asset' and o['id'] is not None for o in ops) and 'add_association' in ks and \
                 any(o['k'] == 'add_asset' and o['defenses'] for o in ops):
@@ -149,7 +339,78 @@ def run(seed, tier, lean) -> Result:
         if v: res.violations.append(v)
         if len(res.samples) < 2 and mo and 'doc' in mo and len(mo['doc']['assets']) > 2: res.samples.append({'fmt': fmt, 'doc': mo['doc']})
     if not res.samples: res.samples.append({'ops': cases[0][1][:5]})
+    if queue:
+        seen = set()
+        for q, kind, what in check_loads(queue, cases, res):
+            if (q['case'], kind) in seen: continue
+            seen.add((q['case'], kind))
+            spec, ops, fmt, _ = cases[q['case']]
+            rp = {'spec': spec, 'ops': ops, 'fmt': fmt, 'edit': q['label'], 'document': genexec.m_doc_encode(q['doc']), 'impl': [q['real'][0], q['real'][1]]}
+            res.violations.append(genexec.driver_error('C07', what, rp) if kind == 'driver-error' else
+                                  genexec.divergence('C07', '_from_dict', f'on the document "{q["label"]}" ({what})', rp))
     return res
+
+def genexec_measure(seed: int, n: int) -> dict:
+    """seeded experiment (tools/genexec_seeded.py): n cases of the quick check on the (mutated) implementation, the hand model
+    (`ser_model`: saved document and loaded state, compared as `check_case` does) and the (regenerated) code (`gen_ser_model`:
+    document of `_to_dict`, exact; `gen_load_doc`: `_from_dict` on the file the implementation wrote, on the oracle's edited
+    file and on three further hand edits).  A case = one model history with its file format."""
+    from .. import genexec
+    rnd = random.Random(seed)
+    st = {'cases': 0, 'impl_ne_hand': 0, 'gen_follows_impl': 0, 'gen_ne_impl': 0, 'impl_crash': 0, 'examples': []}
+    def note(kind, info):
+        if len([e for e in st['examples'] if e[0] == kind]) < 2: st['examples'].append([kind, info])
+    cases = []
+    for i in range(n):
+        r = random.Random(rnd.getrandbits(48))
+        spec = LangGen(r, knobs={'dup_assoc_names': 0.4}).gen()
+        ops = Gen(r, spec, WEIGHTS, names=NAMES).gen(r.randint(4, 30))[:-1]
+        cases.append((spec, ops, ['json', 'yml', 'yaml'][i % 3], r))
+    hand, gen = genexec.run_both([{'op': 'ser_model', 'case': i, 'lang': lang_payload(s), 'ops': o, 'fmt': 'json' if f == 'json' else 'yaml'}
+                                  for i, (s, o, f, r) in enumerate(cases)], 'gen_ser_model',
+                                 rewrite=lambda q: dict(q, meta=meta_of(cases[q['case']][0])))
+    res = Result(); queue = []; per = {}
+    for i, (spec, ops, fmt, r) in enumerate(cases):
+        st['cases'] += 1
+        if 'error' in hand[i] or 'error' in gen[i]:
+            note('driver-error', [hand[i].get('error'), gen[i].get('error')]); continue
+        if 'skip' in gen[i]['model']: continue
+        mo = hand[i]['model']; tap = {}
+        try:
+            v = check_case(spec, ops, fmt, None, r, res, tap)       # the oracle only; what it reached is in `tap`
+            real_doc = tap['m']._to_dict()
+        except Exception as e:
+            st['impl_crash'] += 1; note('impl-crash', f'{type(e).__name__}: {str(e)[:80]}'); continue
+        # hand model = implementation?  (the comparison of `check_case`, independent of the oracle)
+        try: hand_same = canon_doc(mo['doc']) == canon_doc(dict_to_doc(real_doc))
+        except Exception: hand_same = False
+        if hand_same and 'm2' in tap and 'loaded' in mo:
+            im2 = Impl.__new__(Impl); im2.m = tap['m2']
+            try:
+                a, b = canon_obs(Impl.obs(im2)), canon_obs(mo['loaded'])
+                hand_same = all(a[k] == b[k] for k in LOAD_KEYS)
+            except Exception: hand_same = False
+        elif hand_same:
+            hand_same = ('m2' in tap) == ('loaded' in mo) if 'raw' in tap or v is not None else hand_same
+        if 'raw' not in tap and 'm2' in tap:
+            # the oracle stopped before it read the file back: the file the implementation wrote is still there
+            from maltoolbox.file_utils import load_dict_from_json_file, load_dict_from_yaml_file
+            try: tap['raw'] = (load_dict_from_json_file if fmt == 'json' else load_dict_from_yaml_file)(os.path.join(scratch(), f'model.{fmt}'))
+            except Exception: pass
+        bad = third_column(i, spec, ops, fmt, tap, gen[i]['model'], random.Random(seed * 1000003 + i), res, queue, count=False)
+        per[i] = {'hand_same': hand_same, 'bad': [b[1] for b in bad], 'oracle': v.fingerprint if v else None}
+    for q, kind, what in (check_loads(queue, cases, res, count=False) if queue else []):
+        per[q['case']]['bad'].append(f'{q["label"]}: {what}')
+    for i, p in per.items():
+        if not p['hand_same']:
+            st['impl_ne_hand'] += 1
+            if not p['bad']:
+                st['gen_follows_impl'] += 1; note('gen=impl!=hand', {'case': i, 'fmt': cases[i][2], 'oracle': p['oracle']})
+        if p['bad']:
+            st['gen_ne_impl'] += 1; note('gen!=impl', {'case': i, 'fmt': cases[i][2], 'what': p['bad'][:2], 'ops': cases[i][1][:12]})
+    st['oracle_violations'] = sum(1 for p in per.values() if p['oracle'])
+    st['documents_compared'] = len(per); st['loads_compared'] = len(queue)
+    return st
 
 def replay(path):
     r = json.load(open(path))
